@@ -903,3 +903,19 @@ Lemma example_offset :
     (list_to_map [("b", VQty (mkq 25 1) (mkuc [("degree_Celsius", mkq 1 1)]))])
   = Ok [VNum (mkq 5963 20); VNum (mkq 77 1)].
 Proof. by_compute. Qed.
+
+(** the i-th call through one wrapper gives what a fresh decoration and a single call give *)
+Lemma session_nth U Q strict specs ret ps f calls outs i pos kw :
+  wraps_session U Q strict specs ret ps f calls = Ok outs → calls !! i = Some (pos, kw) →
+  outs !! i = Some (wraps_run U Q strict specs ret ps f pos kw).
+Proof.
+  unfold wraps_session, wraps_run. destruct (wraps_decorate specs ps) as [cl|e]; simpl; [|discriminate].
+  intros [= <-] H. rewrite list_lookup_fmap, H. reflexivity.
+Qed.
+Lemma session_repeat U Q strict specs ret ps f calls outs i j c :
+  wraps_session U Q strict specs ret ps f calls = Ok outs →
+  calls !! i = Some c → calls !! j = Some c → outs !! i = outs !! j.
+Proof.
+  destruct c as [pos kw]. intros H Hi Hj.
+  rewrite (session_nth _ _ _ _ _ _ _ _ _ _ _ _ H Hi), (session_nth _ _ _ _ _ _ _ _ _ _ _ _ H Hj). reflexivity.
+Qed.
